@@ -114,6 +114,43 @@ func runArg(c argCase) (string, *mc.Viol) {
 	return "unchanged", nil
 }
 
+// ---- truncated messages whose missing tail sits in the spare capacity ----
+//
+// For every single-argument operation on a peer message: the message is cut at every
+// position k and handed over as buf[:k] while buf[k:] (the genuine continuation) lies right
+// behind it in the same backing array. The result must be the one for the k-byte message
+// with exact capacity: an operation that reads behind len(arg) would see the tail.
+
+type tailCase struct {
+	Op  string `json:"op"`
+	Cut int    `json:"cut"`
+}
+
+func runTail(c tailCase) (string, *mc.Viol) {
+	op := opByName(c.Op)
+	if op == nil || len(op.ArgNames) != 1 {
+		return "unknown-op", nil
+	}
+	full := op.Args()[0]
+	if c.Cut > len(full) {
+		return "harness", nil
+	}
+	var base, got string
+	mc.Entropy("c16-" + c.Op)
+	p0 := mc.Catch(func() { base = op.Call([][]byte{exact(full[:c.Cut])}) })
+	buf := append([]byte{}, full...)
+	before := append([]byte{}, buf...)
+	mc.Entropy("c16-" + c.Op)
+	p1 := mc.Catch(func() { got = op.Call([][]byte{buf[:c.Cut]}) })
+	if !bytes.Equal(buf, before) {
+		return "wrote-behind-truncated-message", &mc.Viol{Sig: c.Op + " writes to the caller's buffer (truncated message, genuine tail behind it)", What: fmt.Sprintf("cut %d of %d", c.Cut, len(full))}
+	}
+	if (p0 == "") != (p1 == "") || got != base {
+		return "result-depends-on-tail", &mc.Viol{Sig: c.Op + ": result for a truncated message depends on what lies behind it in the buffer", What: fmt.Sprintf("cut %d of %d: with exact capacity %s (panic %q), with the genuine tail behind it %s (panic %q)", c.Cut, len(full), base, p0, got, p1)}
+	}
+	return "same-as-exact-capacity", nil
+}
+
 func digest(parts ...[]byte) string {
 	h := sha256.New()
 	for _, p := range parts {
@@ -132,6 +169,12 @@ func main() {
 		var c argCase
 		json.Unmarshal(pj, &c)
 		_, v := runArg(c)
+		return v
+	})
+	r.RegisterReplay("tail", func(pj json.RawMessage) *mc.Viol {
+		var c tailCase
+		json.Unmarshal(pj, &c)
+		_, v := runTail(c)
 		return v
 	})
 	hs := histories()
@@ -167,12 +210,36 @@ func main() {
 	r.Set("argument_placements", len(cases))
 	r.Sample(argCase{Op: "ed25519.BlindPublicKeyWithContext", Arg: 1, Spare: 16, Fill: 1})
 
+	// (A2) truncated messages with the genuine tail behind them
+	var tails []tailCase
+	for _, op := range allOps {
+		if len(op.ArgNames) != 1 {
+			continue
+		}
+		n := len(op.Args()[0])
+		step := 1
+		if n > 400 && !r.Thorough() {
+			step = 3
+		}
+		for k := 0; k < n; k += step {
+			tails = append(tails, tailCase{Op: op.Name, Cut: k})
+		}
+	}
+	r.Par(len(tails), func(i int) {
+		out, v := runTail(tails[i])
+		if v != nil {
+			r.Violation("tail", tails[i], v)
+		}
+		r.Case(fmt.Sprintf("tail-%+v", tails[i]), true, "tail:"+out)
+	})
+	r.Set("truncations_with_tail_in_spare_capacity", len(tails))
+
 	// (B)
 	depth := mc.Pick(r, 3, 4)
 	for _, h := range hs {
 		h.Depth = depth
-		h.Run(r)
 	}
+	r.Par(len(hs), func(i int) { hs[i].Run(r) })
 	r.Set("history_depth", depth)
 	r.SetRule("(A) every operation x every byte-slice argument x spare capacity {0,1,16,64,512} x fill {00,AA,FF} inside a guarded buffer; non-trivial = spare capacity > 0. (B) every sequence up to the depth over the per-type operation menu (snapshot request fields, snapshot encoding, finalize valid/invalid, evaluate, marshal again, verify) on one request state / issuer; every hand-out is compared after every later step")
 	r.Assume("results are compared through a digest of everything the operation returns, under a per-case deterministic entropy stream, so also randomised operations must give identical results across capacities",
